@@ -39,7 +39,19 @@ fn via_vrl(patterns: &[String], aliases: &BTreeMap<KeyString, String>, input: &s
     }
 }
 
+/// A structurally broken case (the shrinker produces them) is answered, not crashed on.
+fn well_formed(case: &J) -> bool {
+    let pats_ok = case.get("patterns").and_then(|p| p.as_array()).is_some_and(|a| a.iter().all(|p| p.is_string()));
+    let al_ok = case.get("aliases").and_then(|a| a.as_array()).is_none_or(|a| {
+        a.iter().all(|kv| kv.as_array().is_some_and(|kv| kv.len() == 2 && kv[0].is_string() && kv[1].is_string()))
+    });
+    pats_ok && al_ok && case.get("input").is_some_and(|i| i.is_string())
+}
+
 pub fn run(case: &J) -> J {
+    if !well_formed(case) {
+        return json!({"bad_case": true});
+    }
     let patterns: Vec<String> = case["patterns"].as_array().unwrap().iter().map(|p| unhex_str(p.as_str().unwrap())).collect();
     let mut aliases: BTreeMap<KeyString, String> = BTreeMap::new();
     if let Some(a) = case.get("aliases").and_then(|a| a.as_array()) {
